@@ -13,7 +13,7 @@ def cur(name):
     if name not in last:
         return "not re-run"
     when, _, prop, rc, viol, first = last[name]
-    return "exit %s, %s VIOLATION lines" % (rc, viol)
+    return "exit %s, %s VIOLATION lines (%s)" % (rc, viol, when[5:16].replace("T", " "))
 rows = []
 for d in sorted(glob.glob(os.path.join(V, "seeded", "*", "meta.json"))):
     m = json.load(open(d))
